@@ -42,6 +42,7 @@ fn long_cycles(kind: Kind, period: usize, len: usize, st: &mut Stats, sink: &Sin
             continue;
         }
         let ints: Vec<i128> = cyc.iter().map(|x| (x * 10.0).round() as i128).collect();
+        let mag = cyc.iter().fold(0.0f64, |m, x| m.max(x.abs()));
         let r = guard(|| {
             let mut v = build::<f64>(&spec);
             let (mut s1, mut s2): (i128, i128) = (0, 0);
@@ -60,10 +61,10 @@ fn long_cycles(kind: Kind, period: usize, len: usize, st: &mut Stats, sink: &Sin
                         let var = (n * s2 - s1 * s1) as f64 / (100.0 * (n * n) as f64);
                         let (mean, _) = v.aux().unwrap();
                         let mean_want = s1 as f64 / (10.0 * n as f64);
-                        if (mean - mean_want).abs() > 1e-7 * 1000.0 {
+                        if (mean - mean_want).abs() > 1e-9 * mag {
                             return Some((i, format!("mean() = {:e} but the mean of the {} values so far is {:e}", mean, n, mean_want)));
                         }
-                        (Some(var.max(0.0).sqrt()), 1000.0)
+                        (Some(var.max(0.0).sqrt()), mag)
                     }
                     Kind::Drawdown => {
                         if x > peak {
@@ -83,7 +84,9 @@ fn long_cycles(kind: Kind, period: usize, len: usize, st: &mut Stats, sink: &Sin
                 };
                 let ok = match (got, want) {
                     (None, None) => true,
-                    (Some(g), Some(w)) => (g - w).abs() <= 1e-7 * scale,
+                    // "without the error growing beyond rounding noise": Welford's update is accurate to
+                    // ~1e-13 relative after 10^6 values; 1e-9 of the scale leaves four orders of room
+                    (Some(g), Some(w)) => (g - w).abs() <= 1e-9 * scale,
                     _ => false,
                 };
                 if !ok {
